@@ -256,13 +256,17 @@ def check(ctx, case):
 		n = len(files)
 		# per-file results from the real single-file function
 		results = []
-		for f in files:
+		pf = []
+		for i_f, f in enumerate(files):
 			try:
 				results.append(nats(calc_file_signature(kspec, f).tolist()))
+				if case['files'][i_f]['kind'] in ('missing', 'garbage', 'truncgz'):
+					# the harness made this file unreadable (absent / not gzip although it claims to be / a gzip stream cut off part-way): "a file that
+					# cannot be read makes the whole call fail" does not depend on what the single-file function says about it
+					pf.append(f'file {i_f} ({case["files"][i_f]["kind"]}) cannot be read completely, yet its signature was computed without an error')
 			except Exception:
 				results.append('E')
 		mode = case['mode']
-		pf = []
 		ex = None
 		try:
 			if mode == 'controlled':
@@ -368,7 +372,9 @@ def run(ctx):
 		# a failing file at every position, every order for small n
 		for bad in range(n):
 			files = [dict(f) for f in base]
-			files[bad] = {'kind': rng.choice(['missing', 'garbage'])}
+			# cannot be opened / not gzip although it claims to be / a gzip stream that ends part-way through (some records parse first)
+			files[bad] = {'kind': rng.choice(['missing', 'garbage', 'truncgz']),
+			              'contigs': [dbutil.rand_dna(rng, rng.randint(30, 200)).hex() for _ in range(rng.randint(1, 3))]}
 			for order in (perms if n <= 3 else rng.sample(perms, min(len(perms), ctx.q(6, 60)))):
 				if not ctx.time_left(0.7):
 					break
